@@ -55,7 +55,10 @@ ASSUMPTIONS = [
     'against the values nibabel computes now for every (float32/float64, integer type) pair',
     'oracle reference: fractions.Fraction arithmetic on the stored slope / intercept and the raw integers read back',
 ]
-RULE = ('decisions stream: every general-stream NIfTI/SPM case whose writer decisions are not within rounding distance of '
+RULE = ('layouts: about half of all save cases are 3-D arrays with 2-5 memory slabs in C or F order (values in memory order; '
+        'NaN/inf placement varied over slabs, first non-finite value in a later slab, extremes before/in/after it); '
+        'spec-fr stream: volumeutils.finite_range itself on such layouts vs the model and an exact reference; '
+        'decisions stream: every general-stream NIfTI/SPM case whose writer decisions are not within rounding distance of '
         'flipping is also compared with the model at decision level (slope == 1, inter == 0, sign of slope, refusal); '
         'exact streams: dyadic grids (A + j) * 2**k with range = shared type range * 2**k, quarter-step offsets (rint ties), '
         'NaN / +-inf mixtures, constants, int->int (intercept only, sign flip, range scaling), refusals, x every class '
@@ -282,7 +285,9 @@ def var_eligible(cls, in_name, out_name, vals):
     return True
 
 
-def mk_save(cls, in_name, out_name, valstrs, stream, exact):
+def mk_save(cls, in_name, out_name, valstrs, stream, exact, shape=None, order='C'):
+    """`valstrs` are the elements in MEMORY order; `shape`/`order` give the array layout (None = the 1-D column
+    (n, 1, 1)); with order 'C' the first axis, with 'F' the last axis, is the slowest (finite_range walks its slabs)"""
     vals = [parse_val(s, in_name) for s in valstrs]
     line = None
     lcls = 'spm' if cls == 'spm2' else cls
@@ -295,9 +300,21 @@ def mk_save(cls, in_name, out_name, valstrs, stream, exact):
         line = f'C02 var {lcls} {in_token(in_name)} {out_token(out_name)} {line_vals(vals)}'
     data = {'op': op, 'cls': cls, 'in': in_name, 'out': out_name, 'vals': list(valstrs), 'stream': stream,
             'exact': bool(exact)}
+    if shape is not None:
+        data['shape'], data['order'] = list(shape), order
     need = scaling_needed(in_name, out_name, vals)
-    key = ('save', cls, in_name, out_name, tuple(valstrs)) if need else None
+    key = ('save', cls, in_name, out_name, tuple(valstrs), tuple(shape or ()), order) if need else None
     return Case(line, data, key, stream)
+
+
+def mk_fr(in_name, valstrs, shape=None, order='C'):
+    """finite_range itself (volumeutils.finite_range(arr, check_nan=True)) against the model's finiteRange"""
+    vals = [parse_val(s, in_name) for s in valstrs]
+    data = {'op': 'fr', 'in': in_name, 'vals': list(valstrs), 'stream': 'spec-fr'}
+    if shape is not None:
+        data['shape'], data['order'] = list(shape), order
+    return Case(f'C02 fr {in_token(in_name)} {line_vals(vals)}', data,
+                ('fr', in_name, tuple(valstrs), tuple(shape or ()), order), 'spec-fr')
 
 
 def mk_a2f(in_name, out_name, s, b, mn, mx, n2z, valstrs, stream='a2f'):
@@ -321,7 +338,10 @@ def mk_spec(op, p, arg):
 def case_from_data(d):
     if d['op'] in ('save', 'var'):
         st = d.get('stream', 'corpus')
-        return mk_save(d['cls'], d['in'], d['out'], d['vals'], 'general' if d['op'] == 'var' else st, d.get('exact', False))
+        return mk_save(d['cls'], d['in'], d['out'], d['vals'], 'general' if d['op'] == 'var' else st, d.get('exact', False),
+                       d.get('shape'), d.get('order', 'C'))
+    if d['op'] == 'fr':
+        return mk_fr(d['in'], d['vals'], d.get('shape'), d.get('order', 'C'))
     if d['op'] == 'a2f':
         f = lambda x: None if x is None else Fr(x)
         return mk_a2f(d['in'], d['out'], Fr(d['s']), Fr(d['b']), f(d['mn']), f(d['mx']), d['n2z'], d['vals'],
@@ -362,6 +382,22 @@ def np_array(in_name, valstrs):
     return np.array([int(s) for s in valstrs], dtype=dt)
 
 
+def laid_out(d):
+    """the input array in the memory layout the case describes"""
+    flat = np_array(d['in'], d['vals'])
+    if d.get('shape'):
+        arr = flat.reshape(tuple(d['shape']), order=d.get('order', 'C'))
+        if int(np.prod(d['shape'])) != len(d['vals']):
+            raise HarnessError('shape does not match the number of values')
+        return arr
+    return flat.reshape((-1, 1, 1))
+
+
+def unravel(arr, d):
+    """elements of a read-back array in the order of d['vals'] (memory order of the input)"""
+    return np.asarray(arr).ravel(order=d.get('order', 'C') if d.get('shape') else 'C')
+
+
 def image_class(cls):
     import nibabel as nib
     from nibabel.freesurfer.mghformat import MGHImage
@@ -371,7 +407,7 @@ def image_class(cls):
 
 def run_save(d, case):
     klass = image_class(d['cls'])
-    data = np_array(d['in'], d['vals']).reshape((-1, 1, 1))
+    data = laid_out(d)
     hdr = klass.header_class()
     hdr.set_data_dtype(np.dtype(d['out']))
     img = klass(data, np.eye(4), hdr)
@@ -386,8 +422,8 @@ def run_save(d, case):
         except Exception as e:
             return canon_err(e)
         back = klass.from_file_map(fm)
-        raw = np.asarray(back.dataobj.get_unscaled()).ravel()
-        reloaded = np.asarray(back.dataobj).ravel()
+        raw = unravel(back.dataobj.get_unscaled(), d)
+        reloaded = unravel(back.dataobj, d)
     if raw.dtype.newbyteorder('=') != np.dtype(d['out']):
         return 'ERR:on-disk-dtype-' + raw.dtype.name
     s, b = float(back.dataobj.slope), float(back.dataobj.inter)
@@ -450,6 +486,17 @@ def impl(case):
     if d['op'] == 'a2f':
         return run_a2f(d)
     from nibabel import casting
+    if d['op'] == 'fr':
+        from nibabel.volumeutils import finite_range as nib_finite_range
+        mn, mx, has_nan = nib_finite_range(laid_out(d), check_nan=True)
+        if d['in'] in FPREC:
+            mn, mx = float(mn), float(mx)
+            if mn == math.inf and mx == -math.inf:
+                return f'none {1 if has_nan else 0}'
+            if not (math.isfinite(mn) and math.isfinite(mx)):
+                return f'nonfinite:{mn}:{mx} {1 if has_nan else 0}'
+            return f'{fr_str(Fr(mn))} {fr_str(Fr(mx))} {1 if has_nan else 0}'
+        return f'{int(mn)} {int(mx)} {1 if has_nan else 0}'
     if d['op'] == 'shr':
         mn, mx = casting.shared_range(FLT_OF_P[d['p']], np.dtype(d['out']))
         return f'{int(mn)} {int(mx)}'
@@ -646,6 +693,11 @@ def oracle(case, out):
         return oracle_save(case, full)
     if d['op'] == 'a2f':
         return oracle_a2f(case, out)
+    if d['op'] == 'fr':
+        fr, has_nan = finite_range([parse_val(v, d['in']) for v in d['vals']])
+        exp = ('none' if fr is None else f'{fr_str(fr[0])} {fr_str(fr[1])}') + f' {1 if has_nan else 0}'
+        return None if out == exp else (f'finite_range of {d["in"]} array shape {d.get("shape")} order {d.get("order")} '
+                                        f'= {out}, reference {exp}; values (memory order) {d["vals"][:12]}')
     if d['op'] == 'shr':
         omin, omax = irange(d['out'])
         exp = shared(min(d['p'], 64), omin, omax)
@@ -712,6 +764,30 @@ def shrink_candidates(case):
     except Exception:
         return
     vs = d['vals']
+    cands = []
+    if d.get('shape'):
+        shp, k = list(d['shape']), None
+        ax = 0 if d.get('order', 'C') == 'C' else len(shp) - 1
+        k, m = shp[ax], len(vs) // max(shp[ax], 1)
+        for j in range(k if k > 2 else 0):          # drop one whole slab
+            s2 = list(shp)
+            s2[ax] = k - 1
+            cands.append(dict(d, vals=vs[:j * m] + vs[(j + 1) * m:], shape=s2))
+        flat = {kk: vv for kk, vv in d.items() if kk not in ('shape', 'order')}
+        cands.append(flat)
+    else:
+        flat = d
+    for d2 in cands:
+        if d['op'] in ('save', 'var'):
+            d2 = dict(d2, exact=False)
+        c2 = case_from_data(d2)
+        try:
+            if sig0 is None or _failure_sig(c2) == sig0:
+                yield c2
+        except Exception:
+            continue
+    if d.get('shape'):
+        return
     if len(vs) > 1:
         for i in range(len(vs)):
             d2 = dict(d, vals=vs[:i] + vs[i + 1:])
@@ -1136,16 +1212,104 @@ def corpus_regressions():
     return out
 
 
+SPECIALS = ('nan', 'inf', '-inf')
+
+
+def layout(rng, vs, in_name):
+    """Spread the values over a 3-D array with several memory slabs.  Returns (values in memory order, shape, order).
+    Values are only repeated, never invented, so the finite range (and exactness) of the case is unchanged.
+    Modes: shuffle | asis | late = the first slab(s) hold finite values only, the first non-finite value sits in a LATER
+    slab, and the extremes are placed before / in / after that slab."""
+    vs = list(vs)
+    fin = [v for v in vs if v not in SPECIALS]
+    non = [v for v in vs if v in SPECIALS]
+    k = rng.choice([2, 2, 3, 4, 5])
+    m = max(1, -(-len(vs) // k)) + rng.choice([0, 0, 1, 2])
+    n = k * m
+    pool = fin or vs
+    mode = rng.choice(['shuffle', 'late', 'late', 'late', 'asis'])
+    jmax = k - (-(-len(non) // m)) if non else 0
+    if mode == 'late' and fin and non and jmax >= 1:
+        j = rng.randrange(1, jmax + 1)                # first slab with a non-finite value
+        fin = fin + [rng.choice(pool) for _ in range(n - len(vs))]
+        order_key = lambda v: parse_val(v, in_name)
+        hi, lo = max(fin, key=order_key), min(fin, key=order_key)
+        rest = list(fin)
+        rest.remove(hi)
+        if lo in rest and len(rest) > 1:
+            rest.remove(lo)
+        else:
+            lo = None
+        rng.shuffle(rest)
+        slots = [None] * n
+        late = list(range(j * m, n))
+        first = rng.randrange(j * m, (j + 1) * m)
+        slots[first] = non[0]
+        late.remove(first)
+        rng.shuffle(late)
+        for v, pos in zip(non[1:], late):
+            slots[pos] = v
+
+        def place(v, where):
+            region = {'before': range(0, j * m), 'in': range(j * m, (j + 1) * m),
+                      'after': range(min(j + 1, k - 1) * m, n)}[where]
+            free = [q for q in region if slots[q] is None] or [q for q in range(n) if slots[q] is None]
+            slots[rng.choice(free)] = v
+        place(hi, rng.choice(['before', 'in', 'after', 'after']))
+        if lo is not None:
+            place(lo, rng.choice(['before', 'in', 'after', 'after']))
+        it = iter(rest)
+        for q in range(n):
+            if slots[q] is None:
+                slots[q] = next(it)
+        vs = slots
+    else:
+        vs = vs + [rng.choice(pool) for _ in range(n - len(vs))]
+        if mode != 'asis':
+            rng.shuffle(vs)
+    inner = rng.choice([(m, 1), (1, m)] + [(a, m // a) for a in (2, 3) if m % a == 0 and m > a])
+    order = rng.choice('CF')
+    shape = (k,) + inner if order == 'C' else inner + (k,)
+    return vs, shape, order
+
+
+def relayout(rng, case):
+    d = case.data
+    vs, shape, order = layout(rng, d['vals'], d['in'])
+    st = 'general' if d['op'] == 'var' else d['stream']
+    return mk_save(d['cls'], d['in'], d['out'], vs, st, d.get('exact', False), shape, order)
+
+
+def gen_fr(rng, base):
+    """finite_range on multi-slab layouts of the value lists the other streams produced (+ their 1-D originals)"""
+    out = []
+    for c in base:
+        d = c.data
+        if d['op'] not in ('save', 'var'):
+            continue
+        if rng.random() < 0.25:
+            out.append(mk_fr(d['in'], d['vals'], d.get('shape'), d.get('order', 'C')))
+        else:
+            vs, shape, order = layout(rng, d['vals'], d['in'])
+            out.append(mk_fr(d['in'], vs, shape, order))
+    return out
+
+
 def cases(rng, tier):
     n = {'quick': 1, 'thorough': 30, 'search': 4}[tier]
     out = []
     out += corpus_regressions()
     out += gen_spec()
-    out += gen_exact_float(rng, 700 * n)
-    out += gen_exact_int(rng, 500 * n)
-    out += gen_const_refuse(rng, 300 * n)
+    saves = []
+    saves += gen_exact_float(rng, 700 * n)
+    saves += gen_exact_int(rng, 500 * n)
+    saves += gen_const_refuse(rng, 300 * n)
+    saves += gen_general(rng, 2500 * n)
+    # about half of the save cases are laid out as 3-D arrays with several memory slabs (C and F order)
+    saves = [relayout(rng, c) if rng.random() < 0.5 else c for c in saves]
+    out += saves
+    out += gen_fr(rng, [c for c in saves if rng.random() < 0.3])
     out += gen_a2f(rng, 600 * n)
-    out += gen_general(rng, 2500 * n)
     return out
 
 
